@@ -136,11 +136,19 @@ def reconnect_oracle(ix: Index, scn: dict) -> list[Violation]:
                 continue
             if disturbed(a["seq_closed"], nxt["seq_new"]):
                 continue
-            want = done[2] + (5.0 if dev[4]["expected"] else 0.0)
-            if abs(nxt["t_new"] - want) > EPS:
+            # whether the end was expected is decided here, not taken from the callback's flag: a graceful disconnect had
+            # been initiated (local disconnect call in CONNECTED / force, or the device's DisconnectRequest) before the close
+            Tc = a["seq_closed"]
+            calls = [(sq, force, stt) for sq, force, stt in ix.disc_calls.get(a["conn"], []) if sq <= Tc]
+            reqs = [stt for sq, mtype, _dd, stt, _tu, _tt in ix.pp.get(a["conn"], []) if sq <= Tc and mtype == 5]
+            must_exp = any(force or stt == "CONNECTED" for _sq, force, stt in calls) or any(stt in ("HANDSHAKE_COMPLETE", "CONNECTED") for stt in reqs)
+            may_exp = bool(calls) or bool(reqs)
+            allowed_w = {5.0} if must_exp else ({0.0} if not may_exp else {0.0, 5.0})
+            got_w = nxt["t_new"] - done[2]
+            if not any(abs(got_w - w) <= EPS for w in allowed_w):
                 if in_confusion(a["seq_closed"]):
                     continue  # consequence of the known stop/start-while-connected confusion, reported once at its root
-                out.append(Violation("retry-time", ("after-expected-end" if dev[4]["expected"] else "after-unexpected-end"), f"session ended ({'expected' if dev[4]['expected'] else 'unexpected'}), disconnect callback returned at {done[2]:.6f}; next attempt at {nxt['t_new']:.6f}, want {want:.6f}"))
+                out.append(Violation("retry-time", ("after-expected-end" if must_exp else "after-unexpected-end"), f"session ended ({'expected' if must_exp else 'unexpected'}: {len(calls)} local disconnect call(s), {len(reqs)} device request(s) before the close; callback flag {dev[4]['expected']}), disconnect callback returned at {done[2]:.6f}; next attempt at {nxt['t_new']:.6f}, want +{sorted(allowed_w)}"))
             continue
         if a["seq_closed"] is None:
             continue
@@ -347,6 +355,18 @@ def gen_c18(rng: random.Random) -> dict:
         steps.append({"do": "sleep", "d": max(0.0, T - tt) + pick(rng, [0.0, 10.0, 70.0])})
         steps.append({"do": "rl.stop"})
         ends_started = False
+    actors_extra: list = []
+    if rng.random() < 0.3:
+        # the application itself ends sessions while the manager runs (graceful or forced); the device may ignore the
+        # DisconnectRequest and the TCP connection may die while the client still waits for the answer
+        asteps: list = []
+        for _ in range(rng.randint(1, 3)):
+            asteps += [{"do": "sleep", "d": rng.random() * T / 2}, {"do": "disconnect", "force": rng.random() < 0.3}]
+        actors_extra.append({"id": "app", "at": {"t": 0.5}, "steps": asteps})
+        if rng.random() < 0.6:
+            device["replies"] = {"DisconnectRequest": pick(rng, [["silent"], [{"msgs": [["DisconnectResponse", {}]], "delay": pick(rng, [0.3, 2.0])}]])}
+            for nth in range(1, rng.randint(1, 3) + 1):
+                events.append({"at": {"on": "op_start", "match": {"actor": "app", "do": "disconnect"}, "nth": nth, "delay": pick(rng, [0.01, 0.2, 1.0])}, "do": "fault", "kind": pick(rng, ["fin", "rst"]), "latency": 0.0})
     healthy_from = max(T, tt) + 0.001
     scn = {
         "family": "reconnect",
@@ -355,7 +375,7 @@ def gen_c18(rng: random.Random) -> dict:
         "client": client,
         "device": device,
         "net": net,
-        "actors": [{"id": "a0", "at": {"t": 0.0}, "steps": steps}],
+        "actors": [{"id": "a0", "at": {"t": 0.0}, "steps": steps}] + actors_extra,
         "events": events,
         "end": healthy_from + LIVENESS_WINDOW + 3.0,
         "max_time": 1e5,
